@@ -150,6 +150,9 @@ class StlAstParserVisitor(LtlAstParserVisitor, StlParserVisitor):
         end, end_unit = self.visit(ctx.intervalTime(1))
         b_unit = begin_unit or end_unit or self.unit
         e_unit = end_unit or begin_unit or self.unit
+        if b_unit not in self.U or e_unit not in self.U:
+            raise RTAMTException('The time unit {} of the interval {} is not supported'.format(
+                b_unit if b_unit not in self.U else e_unit, ctx.getText()))
         if begin * self.U[b_unit] > end * self.U[e_unit]:
             raise RTAMTException('The lower bound of the interval {} is greater than its upper bound'.format(ctx.getText()))
         interval = Interval(begin, end, begin_unit, end_unit)
